@@ -456,6 +456,10 @@ func (s *MergeExp) BindingPath(bindPath string,
 			arr.Value[i] = iv
 		}
 		return &arr, s.wrapError(errs.If())
+	case ModeNullMapCall:
+		return &NullExp{
+			valExp: valExp{Node: *v.getNode()},
+		}, s.wrapError(err)
 	default:
 		panic("invalid merge kind " + src.CallMode().String())
 	}
